@@ -66,6 +66,9 @@ def main(argv):
         tier = argv[1]
         assert tier in ("quick", "thorough"), tier
         cases = list(mod.gen_cases(seed, tier))
+        only = os.environ.get("VERIF_ONLY_CLS")      # development aid: restrict to some case classes
+        if only:
+            cases = [c for c in cases if str(c.get("cls")) in only.split(",")]
         replay = False
     for i, c in enumerate(cases):
         c.setdefault("_i", i)
@@ -84,18 +87,25 @@ def main(argv):
         wsum = sum(float(cases[i].get("_w", 1)) for i in idx)
         budget = 120.0 + case_to * wsum
         env_k = dict(env, VERIF_SHARD_SCRATCH=str(scratch_root / f"s{k}"), VERIF_TIER=tier)
+        # worker chatter (tqdm bars of mtscomp, warnings) goes to a file: a pipe would fill up and block the worker
+        logf = open(scratch_root / f"shard{k}.log", "w")
         p = subprocess.Popen([sys.executable, "-B", "-m", "vlib.worker", pid, str(inp), str(out)],
-                             env=env_k, stdout=subprocess.PIPE, stderr=subprocess.STDOUT, text=True)
-        procs.append((k, p, out, budget, idx))
+                             env=env_k, stdout=logf, stderr=subprocess.STDOUT, text=True)
+        procs.append((k, p, out, budget, idx, logf))
     results = {}
     inconclusive = []
-    for k, p, out, budget, idx in procs:
+    for k, p, out, budget, idx, logf in procs:
         try:
-            so, _ = p.communicate(timeout=max(1.0, budget - (time.time() - t0)) if budget else None)
+            p.wait(timeout=max(1.0, budget - (time.time() - t0)))
         except subprocess.TimeoutExpired:
             p.kill()
-            so, _ = p.communicate()
+            p.wait()
             inconclusive.append(f"shard{k}:watchdog-timeout-after-{int(budget)}s")
+        logf.close()
+        try:
+            so = (scratch_root / f"shard{k}.log").read_text(errors="replace")[-2000:]
+        except Exception:
+            so = ""
         if p.returncode not in (0, None) and p.returncode != -9:
             inconclusive.append(f"shard{k}:worker-died-rc={p.returncode}:{(so or '')[-400:].strip()}")
         if out.exists():
@@ -148,6 +158,8 @@ def main(argv):
 
     # ---- replays
     rdir = HOME / "replays" / pid
+    if not replay:
+        shutil.rmtree(rdir, ignore_errors=True)
     printed = set()
     replay_paths = []
     for i, v in viol_new:
@@ -217,6 +229,10 @@ def main(argv):
     print(f"[{pid} {tier} seed={seed}] cases={len(results)}/{len(cases)} nontrivial={sum(nontrivial_sigs.values())} "
           f"violations={len(viol_new)} known={sum(len(v) for v in viol_known.values())} wall={ev['wall_s']}s")
     print(f"  observed: {obs_s}")
+    if os.environ.get("VERIF_DEBUG"):
+        slow = sorted(((r.get("_wall", 0), i) for i, r in results.items()), reverse=True)[:8]
+        for w, i in slow:
+            print(f"  slow case {w}s: { {k: v for k, v in cases[i].items() if k not in ('lens', 'trailing')} }")
     if viol_new:
         return 1
     if inconclusive:
